@@ -187,7 +187,7 @@ theorem tryParse_flat (vk : Bytes → Bool) (fs : List SubField) (hw : WFSeq vk 
 
 theorem rawDecode_complete (e : Bytes) (hc : e.length ≤ CAP) : rawDecode (encVarint e.length ++ e) = some e := by
   unfold rawDecode
-  have := vecU8Rd_complete e [] (by simpa [sizes] using hc) (Nat.lt_of_le_of_lt hc CAP_lt)
+  have := vecU8Rd_complete e [] (by simpa [sizes, Gen.sizes] using hc) (Nat.lt_of_le_of_lt hc CAP_lt)
   rw [List.append_nil] at this
   rw [this]
 
